@@ -9,8 +9,14 @@
      begins_monotone         no variable, begin_var, begin_rec, recsize ever decreases
      begins_layout_ok_redef  layout_ok after a redefinition
      begins_redef_facts      the index-level facts needed by the data mover (Proofs_Redef.v)
-     begins_none_iff / enddef_size_verdict   C18: when does enddef fail with NC_EVARSIZE
+     begins_none_iff / begins_none_iff_new / enddef_size_verdict / enddef_fails_iff
+                             C18: when does enddef fail with NC_EVARSIZE
      vsize_saturation        the vsize field read back is expected_vsize
+     hdr_extends_append      appending dimensions / variables extends the header
+     reachable_lay_inv       the invariant holds after EVERY history
+                             create; enddef; (redef; extend; enddef | close; open)*
+     layout_of_hdr_agrees    the layout re-derived from the header at open agrees
+     begin_var_minfree_refuted, redef_needs_contig_cex   two requested statements that are false
 
    All statements are about the model functions of Header.v, for every header (any number of
    variables), every alignment request and every redefinition history.  No model definition is
@@ -1716,3 +1722,553 @@ Section Redef.
              (hdr_len h) _ _ Hw Holen Hobi Hoc B1 B3 B4 B5 Hle i Hi Hk).
   Qed.
 End Redef.
+
+(* ====================================================================== *)
+(** * 11. C18: when does enddef fail with NC_EVARSIZE                      *)
+(* ====================================================================== *)
+
+Lemma over_int_Exists : forall l, over_int l = true <-> Exists (fun s => s > NC_MAX_INT) l.
+Proof.
+  intros l. unfold over_int. rewrite existsb_exists, Exists_exists.
+  split; intros [x [Hin Hx]]; exists x; split; try assumption; lia.
+Qed.
+
+(** the exact failure condition of NC_begins, every case (new file or redefinition):
+    CDF-1 and the running end offset seen when some fixed or record variable is placed
+    exceeds NC_MAX_INT = 2^31-1 *)
+Theorem begins_none_iff : forall h hm vm ha ra old pbr,
+  begins h hm vm ha ra old pbr = None <->
+  h_format h = 1 /\
+  (Exists (fun s => s > NC_MAX_INT) (fstarts (vsof h) (old_fixed_of old) (bv1_of h hm ha old)) \/
+   Exists (fun s => s > NC_MAX_INT) (rstarts (vsof h) (begin_rec_of h hm vm ha ra old pbr))).
+Proof.
+  intros h hm vm ha ra old pbr. rewrite begins_eq, <- !over_int_Exists.
+  unfold begins_overflow.
+  destruct (Z.eqb_spec (h_format h) 1) as [E|E]; cbn [andb].
+  - destruct (over_int (fstarts (vsof h) (old_fixed_of old) (bv1_of h hm ha old)));
+      destruct (over_int (rstarts (vsof h) (begin_rec_of h hm vm ha ra old pbr))); cbn [orb];
+      split; try discriminate; try (intros _; split; [exact E|auto]); try reflexivity;
+      intros [_ [C|C]]; discriminate C.
+  - split; [discriminate|]. intros [C _]. contradiction.
+Qed.
+
+Corollary begins_not_none_fmt : forall h hm vm ha ra old pbr,
+  h_format h <> 1 -> begins h hm vm ha ra old pbr <> None.
+Proof. intros h hm vm ha ra old pbr Hf C. apply begins_none_iff in C. destruct C as [C _]. contradiction. Qed.
+
+(* the running end offsets are the ends of the preceding variables *)
+Fixpoint prev_ends (e : Z) (l : list (Z * Z)) : list Z :=
+  match l with [] => [] | (b, len) :: r => e :: prev_ends (b + len) r end.
+
+Lemma fstarts_prev_ends : forall vs oldf e, fstarts vs oldf e = prev_ends e (fpairs vs oldf e).
+Proof.
+  induction vs as [|[k len] r IH]; intros oldf e; [reflexivity|].
+  destruct k; cbn [fstarts fpairs prev_ends]; rewrite IH; reflexivity.
+Qed.
+
+Lemma rstarts_rpairs : forall vs e, rstarts vs e = map fst (rpairs vs [] e).
+Proof.
+  induction vs as [|[k len] r IH]; intros e; [reflexivity|].
+  destruct k; cbn [rstarts rpairs rec_b tl map fst]; rewrite IH; reflexivity.
+Qed.
+
+(* new file, aligned start: a fixed variable begins exactly at the end of the previous one *)
+Lemma fstarts_new : forall vs e, e mod 4 = 0 -> Forall (fun p : bool * Z => snd p mod 4 = 0) vs ->
+  fstarts vs [] e = map fst (fpairs vs [] e).
+Proof.
+  induction vs as [|[k len] r IH]; intros e He H; [reflexivity|].
+  inversion H as [|? ? Hp Hr]; subst. cbn [snd] in Hp.
+  destruct k; cbn [fstarts fpairs fix_b tl map fst].
+  - apply IH; assumption.
+  - rewrite (rndup4_id e He). rewrite IH; [reflexivity|lia|exact Hr].
+Qed.
+
+Lemma Exists_sel_split : forall (P : Z -> Prop) vs bl, length bl = length vs ->
+  (Exists P bl <-> Exists P (map fst (sel false vs bl)) \/ Exists P (map fst (sel true vs bl))).
+Proof.
+  intros P vs. induction vs as [|[k len] r IH]; intros [|b bl] Hl; cbn [length] in Hl;
+    try discriminate Hl.
+  - cbn [sel map]. split; [intros H; inversion H|intros [H|H]; inversion H].
+  - injection Hl as Hl. specialize (IH bl Hl). cbn [sel].
+    destruct k; cbn [Bool.eqb map fst]; rewrite !Exists_cons, IH; tauto.
+Qed.
+
+(** NEW file: enddef's offset test fails exactly for CDF-1 when some variable of the layout
+    that would be computed begins beyond NC_MAX_INT *)
+Theorem begins_none_iff_new : forall h hm vm ha ra,
+  0 <= hm -> 0 < ha -> ha mod 4 = 0 ->
+  (begins h hm vm ha ra None 0 = None <->
+   h_format h = 1 /\
+   Exists (fun b => b > NC_MAX_INT) (l_begins (layout_of_begins h hm vm ha ra None 0))).
+Proof.
+  intros h hm vm ha ra Hhm Hha Hha4. rewrite begins_none_iff.
+  cbn [old_fixed_of]. change (bv1_of h hm ha None) with (bv1_new h hm ha).
+  destruct (bv1_new_ok h hm ha Hhm Hha Hha4) as (_ & Hb4 & _).
+  assert (H4 : Forall (fun p : bool * Z => snd p mod 4 = 0) (vsof h)).
+  { unfold vsof. apply Forall_forall. intros p Hp. apply in_map_iff in Hp.
+    destruct Hp as [v [<- _]]. cbn [snd]. apply var_len_unpadded. }
+  rewrite (fstarts_new _ _ Hb4 H4), rstarts_rpairs.
+  unfold layout_of_begins. cbn [l_begins old_fixed_of old_rec_of].
+  change (bv1_of h hm ha None) with (bv1_new h hm ha).
+  rewrite (Exists_sel_split _ (vsof h) _ (assign_length _ _ _ _ _)).
+  rewrite sel_false_assign, sel_true_assign. reflexivity.
+Qed.
+
+(** "enddef succeeds exactly when the size rules hold" (new file) *)
+Definition enddef_ok (h : hdr) (hm vm ha ra : Z) : Prop :=
+  check_vlens h = NC_NOERR /\ begins h hm vm ha ra None 0 <> None.
+
+Definition size_rules (h : hdr) (hm vm ha ra : Z) : Prop :=
+  Proofs_Vlen.check_vlens_rule h /\
+  (h_format h = 1 ->
+   Forall (fun b => b <= NC_MAX_INT) (l_begins (layout_of_begins h hm vm ha ra None 0))).
+
+Theorem enddef_size_verdict : forall h hm vm ha ra,
+  0 <= hm -> 0 < ha -> ha mod 4 = 0 ->
+  (enddef_ok h hm vm ha ra <-> size_rules h hm vm ha ra).
+Proof.
+  intros h hm vm ha ra Hhm Hha Hha4. unfold enddef_ok, size_rules.
+  rewrite Proofs_Vlen.check_vlens_iff_rule, (begins_none_iff_new h hm vm ha ra Hhm Hha Hha4).
+  split; intros [H1 H2]; (split; [exact H1|]).
+  - intros Hf. apply Forall_forall. intros b Hb.
+    destruct (Z_le_gt_dec b NC_MAX_INT) as [Hle|Hgt]; [exact Hle|].
+    exfalso. apply H2. split; [exact Hf|]. apply Exists_exists. exists b. split; assumption.
+  - intros [Hf He]. specialize (H2 Hf). rewrite Forall_forall in H2.
+    apply Exists_exists in He. destruct He as [b [Hb Hgt]]. specialize (H2 b Hb). lia.
+Qed.
+
+(** and which error: NC_EVARSIZE in both failing cases (see Exec.do_enddef) *)
+Corollary enddef_fails_iff : forall h hm vm ha ra,
+  0 <= hm -> 0 < ha -> ha mod 4 = 0 ->
+  (check_vlens h = NC_EVARSIZE \/ begins h hm vm ha ra None 0 = None <->
+   ~ size_rules h hm vm ha ra).
+Proof.
+  intros h hm vm ha ra Hhm Hha Hha4.
+  rewrite <- (enddef_size_verdict h hm vm ha ra Hhm Hha Hha4). unfold enddef_ok.
+  destruct (Proofs_Vlen.check_vlens_two_values h) as [E|E]; rewrite E.
+  - split.
+    + intros [C|C] [_ H]; [exact (Proofs_Vlen.NC_NOERR_ne_EVARSIZE C)|exact (H C)].
+    + intros H. right. destruct (begins h hm vm ha ra None 0); [|reflexivity].
+      exfalso. apply H. split; [reflexivity|discriminate].
+  - split.
+    + intros _ [C _]. symmetry in C. exact (Proofs_Vlen.NC_NOERR_ne_EVARSIZE C).
+    + intros _. left. reflexivity.
+Qed.
+
+(** the vsize field written for a variable reads back as the format's expected vsize
+    (saturation at 2^32-1 for CDF-1/2) *)
+Theorem vsize_saturation : forall fmt len r, 0 <= len ->
+  (fmt <? 5) || (len <? 18446744073709551616) = true ->
+  p_nn fmt (vsize_field fmt len ++ r) = Some (expected_vsize fmt len, r).
+Proof.
+  intros fmt len r H0 H. rewrite p_vsize_field, (dec_vsize_expected fmt len H0 H). reflexivity.
+Qed.
+
+(* ====================================================================== *)
+(** * 12. hdr_extends holds for what ncmpi_redef allows; examples          *)
+(* ====================================================================== *)
+
+(** appending dimensions and variables (and changing attributes, numrecs, begins in any way)
+    extends the header, provided the old variables only use existing dimensions *)
+Lemma var_shape_app_dims : forall dims nd v,
+  Forall (fun id => 0 <= id < Zlen dims) (v_dimids v) ->
+  var_shape (dims ++ nd) v = var_shape dims v.
+Proof.
+  intros dims nd v H. unfold var_shape. apply map_ext_in. intros id Hid.
+  rewrite Forall_forall in H. specialize (H id Hid). unfold dim_size. rewrite znth_app_l by exact H.
+  reflexivity.
+Qed.
+
+Theorem hdr_extends_append : forall oh fmt nr nd gatts vars' nv,
+  Forall (fun v => Forall (fun id => 0 <= id < Zlen (h_dims oh)) (v_dimids v)) (h_vars oh) ->
+  (* the old variables, up to attributes / begin / fill mode *)
+  map (fun v => (v_dimids v, v_type v)) vars' = map (fun v => (v_dimids v, v_type v)) (h_vars oh) ->
+  hdr_extends oh (mkhdr fmt nr (h_dims oh ++ nd) gatts (vars' ++ nv)).
+Proof.
+  intros oh fmt nr nd gatts vars' nv Hids Hsame.
+  exists (map (fun v => (is_recvar (h_dims oh ++ nd) v, var_len (h_dims oh ++ nd) v,
+                         unpadded (h_dims oh ++ nd) v)) nv).
+  unfold t3of. cbn [h_dims h_vars]. rewrite map_app. f_equal.
+  revert vars' Hsame. induction Hids as [|v vars Hv Hvars IH]; intros [|v' vars'] Hsame;
+    cbn [map] in Hsame; try discriminate Hsame; [reflexivity|].
+  injection Hsame as Hd Ht Hrest. cbn [map]. rewrite (IH vars' Hrest). f_equal.
+  assert (Hs : var_shape (h_dims oh ++ nd) v' = var_shape (h_dims oh) v).
+  { unfold var_shape. rewrite Hd. apply (var_shape_app_dims (h_dims oh) nd v Hv). }
+  unfold is_recvar, var_len, unpadded. rewrite Hs, Ht. reflexivity.
+Qed.
+
+(* ---------- a concrete header: 2 fixed + 2 record variables, CDF-1 ---------- *)
+Definition ex_dims0 : list dim := [mkdim [116] 0; mkdim [120] 5; mkdim [121] 3].
+
+Definition ex_h0 : hdr :=
+  mkhdr 1 0 ex_dims0 []
+    [ mkvar [97] [1] [] 3 0 false;           (* short a(x)     fixed   10 -> 12 bytes *)
+      mkvar [114; 49] [0; 2] [] 4 0 false;   (* int   r1(t,y)  record  12 bytes       *)
+      mkvar [98] [1; 2] [] 1 0 false;        (* byte  b(x,y)   fixed   15 -> 16 bytes *)
+      mkvar [114; 50] [0; 1] [] 3 0 false ]. (* short r2(t,x)  record  10 -> 12 bytes *)
+
+(* ncmpi__enddef(ncid, 0, 512, 0, 64) on a new file: h_align 512, r_align 64 *)
+Example ex_align0 : resolve_align (mkalign 0 0 0) (mkeargs 0 512 0 64) 4 true = (512, 512, 64).
+Proof. vm_compute. reflexivity. Qed.
+
+Definition ex_l0 : layout := mklayout 224 512 576 24 [512; 576; 524; 588].
+
+Example ex_begins0 : begins ex_h0 0 0 512 64 None 0 = Some ex_l0.
+Proof. vm_compute. reflexivity. Qed.
+
+Example ex_hdr_wf0 : hdr_wf ex_h0.
+Proof. unfold hdr_wf. cbn [h_dims ex_h0 ex_dims0]. repeat (apply Forall_cons; [cbn [d_size]; lia|]). apply Forall_nil. Qed.
+
+(* every hypothesis of begins_layout_ok is satisfied; its conclusions on the instance *)
+Example ex_layout_ok0 :=
+  begins_layout_ok ex_h0 0 0 512 64 ex_l0 ex_hdr_wf0 ltac:(lia) ltac:(lia) ltac:(lia)
+    eq_refl ltac:(lia) eq_refl ex_begins0.
+
+Example ex_layout_ok0_direct :
+  layout_ok (set_begins ex_h0 (l_begins ex_l0)) (l_xsz ex_l0) = true /\
+  fixed_pairs (set_begins ex_h0 (l_begins ex_l0)) = [(512, 12); (524, 16)] /\
+  rec_pairs (set_begins ex_h0 (l_begins ex_l0)) = [(576, 12); (588, 12)] /\
+  recsize_of ex_h0 = 24.
+Proof. vm_compute. repeat split; reflexivity. Qed.
+
+(* exactly one record variable: unpadded record size *)
+Example ex_single_rec :
+  let h := mkhdr 1 0 ex_dims0 [] [mkvar [114; 50] [0; 1] [] 3 0 false] in
+  begins h 0 0 4 4 None 0 = Some (mklayout 108 108 108 10 [108]).
+Proof. vm_compute. reflexivity. Qed.
+
+(* ---------- redefinition: the header grows beyond 512 bytes (a 600-byte attribute), one new
+   dimension, one new fixed and one new record variable ---------- *)
+Definition ex_oh : hdr := set_numrecs (set_begins ex_h0 (l_begins ex_l0)) 3.
+
+Definition ex_h1 : hdr :=
+  mkhdr 1 3 (ex_dims0 ++ [mkdim [122] 4]) [mkatt [99] 2 600 (repeat 65 600%nat)]
+    (h_vars ex_oh ++ [ mkvar [99] [3] [] 6 0 false;          (* double c(z)   fixed  32 bytes *)
+                       mkvar [114; 51] [0] [] 5 0 false ]).  (* float  r3(t)  record  4 bytes *)
+
+Definition ex_l1 : layout := mklayout 924 1024 1088 28 [1024; 1088; 1036; 1100; 1052; 1112].
+
+Example ex_align1 : resolve_align (mkalign 0 0 0) (mkeargs 0 512 0 64) 3 false = (512, 512, 64).
+Proof. vm_compute. reflexivity. Qed.
+
+Example ex_begins1 :
+  begins ex_h1 0 0 512 64 (redef_old ex_oh ex_l0) (l_begin_rec ex_l0) = Some ex_l1.
+Proof. vm_compute. reflexivity. Qed.
+
+Example ex_hdr_wf1 : hdr_wf ex_h1.
+Proof.
+  unfold hdr_wf. cbn [h_dims ex_h1 ex_dims0 app].
+  repeat (apply Forall_cons; [cbn [d_size]; lia|]). apply Forall_nil.
+Qed.
+
+Example ex_extends1 : hdr_extends ex_oh ex_h1.
+Proof.
+  apply (hdr_extends_append ex_oh 1 3 [mkdim [122] 4] _ (h_vars ex_oh) _).
+  - cbn. change (Zlen ex_dims0) with 3.
+    repeat (apply Forall_cons; [repeat (apply Forall_cons; [lia|]); apply Forall_nil|]).
+    apply Forall_nil.
+  - reflexivity.
+Qed.
+
+Example ex_lay_inv0 : lay_inv (t3of ex_oh) ex_l0.
+Proof. exact (proj1 ex_layout_ok0). Qed.
+
+Example ex_lay_inv1 : lay_inv (t3of ex_h1) ex_l1 :=
+  begins_lay_inv_redef ex_oh ex_h1 ex_l0 ex_l1 0 0 512 64 ex_hdr_wf1 ltac:(lia) ltac:(lia)
+    ltac:(lia) ltac:(lia) eq_refl ex_lay_inv0 ex_extends1 ex_begins1.
+
+Example ex_monotone1 :=
+  begins_monotone ex_oh ex_h1 ex_l0 ex_l1 0 0 512 64 ex_hdr_wf1 ltac:(lia) ltac:(lia)
+    ltac:(lia) ltac:(lia) eq_refl ex_lay_inv0 ex_extends1 ex_begins1.
+
+Example ex_layout_ok1 :=
+  begins_layout_ok_redef ex_oh ex_h1 ex_l0 ex_l1 0 0 512 64 ex_hdr_wf1 ltac:(lia) ltac:(lia)
+    ltac:(lia) ltac:(lia) eq_refl ex_lay_inv0 ex_extends1 ex_begins1.
+
+(* second redefinition shape: the header does not grow, one new fixed variable: only the
+   record section moves (begin_var stays 512) *)
+Definition ex_h2 : hdr :=
+  mkhdr 1 3 ex_dims0 [] (h_vars ex_oh ++ [ mkvar [99] [1] [] 6 0 false ]).
+Definition ex_l2 : layout := mklayout 260 512 640 24 [512; 640; 524; 652; 540].
+Example ex_begins2 :
+  begins ex_h2 0 0 512 64 (redef_old ex_oh ex_l0) (l_begin_rec ex_l0) = Some ex_l2.
+Proof. vm_compute. reflexivity. Qed.
+
+(* C18 on instances: CDF-1, a fixed variable of 2^31-4 bytes followed by a second variable:
+   the second one would begin beyond NC_MAX_INT -> NC_EVARSIZE; alone it is accepted *)
+Definition ex_big_dims : list dim := [mkdim [120] 2147483644].
+Example ex_c18_reject :
+  begins (mkhdr 1 0 ex_big_dims [] [mkvar [97] [0] [] 1 0 false; mkvar [98] [] [] 1 0 false])
+         0 0 512 4 None 0 = None.
+Proof. vm_compute. reflexivity. Qed.
+Example ex_c18_accept :
+  begins (mkhdr 1 0 ex_big_dims [] [mkvar [97] [0] [] 1 0 false]) 0 0 512 4 None 0 <> None /\
+  begins (mkhdr 2 0 ex_big_dims [] [mkvar [97] [0] [] 1 0 false; mkvar [98] [] [] 1 0 false])
+         0 0 512 4 None 0 <> None.
+Proof. vm_compute. split; discriminate. Qed.
+
+(* ---------- the layout the library re-derives from the header when the file is opened ---------- *)
+
+Lemma pairs_sel_v_begin : forall dims k vars,
+  map (fun v => (v_begin v, var_len dims v))
+      (filter (fun v => Bool.eqb (is_recvar dims v) k) vars) =
+  sel k (map (fun v => (is_recvar dims v, var_len dims v)) vars) (map v_begin vars).
+Proof.
+  intros dims k vars. induction vars as [|v vars IH]; [reflexivity|].
+  cbn [filter map sel]. destruct (Bool.eqb (is_recvar dims v) k); cbn [map]; rewrite IH; reflexivity.
+Qed.
+
+Lemma fixed_pairs_sel : forall h, fixed_pairs h = sel false (vsof h) (map v_begin (h_vars h)).
+Proof.
+  intros h. unfold fixed_pairs, fixed_vars, vsof. rewrite <- pairs_sel_v_begin.
+  f_equal; try (apply filter_ext_in; intros x; destruct (is_recvar (h_dims h) x); reflexivity).
+Qed.
+
+Lemma rec_pairs_sel : forall h, rec_pairs h = sel true (vsof h) (map v_begin (h_vars h)).
+Proof.
+  intros h. unfold rec_pairs, rec_vars, vsof. rewrite <- pairs_sel_v_begin.
+  f_equal; try (apply filter_ext_in; intros x; destruct (is_recvar (h_dims h) x); reflexivity).
+Qed.
+
+Lemma last_opt_last_end : forall A (f g : A -> Z) l e,
+  match last_opt l with Some v => f v + g v | None => e end =
+  last_end e (map (fun v => (f v, g v)) l).
+Proof.
+  intros A f g l. induction l as [|x l IH]; intros e; [reflexivity|].
+  rewrite last_opt_cons. cbn [map last_end]. rewrite <- IH.
+  destruct (last_opt l); reflexivity.
+Qed.
+
+Lemma last_end_mod4 : forall l e, begins_increasing e l = true -> l <> [] ->
+  Forall (fun p => snd p mod 4 = 0) l -> last_end e l mod 4 = 0.
+Proof.
+  induction l as [|[b len] r IH]; intros e Hbi Hne H4; [contradiction|].
+  apply bi_cons in Hbi. destruct Hbi as (H1 & H2 & H3).
+  inversion H4 as [|? ? Hp Hr]; subst. cbn [snd] in Hp. cbn [last_end].
+  destruct r as [|p r]; [cbn [last_end]; lia|]. apply IH; [exact H3|discriminate|exact Hr].
+Qed.
+
+(* with no empty record variable the "first" and the "last" reading of the recsize rule agree *)
+Lemma rs_rule_first : forall h, hdr_wf h ->
+  (forall v, In v (rec_vars h) -> 0 < var_len (h_dims h) v) ->
+  rs_rule (t3of h) =
+  match rec_vars h with
+  | fr :: _ => if zsum (map (var_len (h_dims h)) (rec_vars h)) =? var_len (h_dims h) fr
+               then unpadded (h_dims h) fr else zsum (map (var_len (h_dims h)) (rec_vars h))
+  | [] => 0 end.
+Proof.
+  intros h Hwf Hpos. rewrite <- recsize_of_rule.
+  destruct (rec_vars h) as [|fr [|v2 rest]] eqn:Er.
+  - apply recsize_none. exact Er.
+  - rewrite (recsize_single h fr Er). cbn [map zsum].
+    replace (var_len (h_dims h) fr + 0 =? var_len (h_dims h) fr) with true by lia. reflexivity.
+  - rewrite (recsize_multi h Hwf); [|rewrite Er; cbn [length]; lia|rewrite Er; exact Hpos].
+    rewrite Er. cbn [map zsum].
+    assert (H2 : 0 < var_len (h_dims h) v2) by (apply Hpos; right; left; reflexivity).
+    assert (Hr : 0 <= zsum (map (var_len (h_dims h)) rest)).
+    { assert (Hr' : forall v, In v rest -> 0 < var_len (h_dims h) v).
+      { intros v Hv. apply Hpos. right. right. exact Hv. }
+      clear -Hr'. induction rest as [|z l IH]; cbn [map zsum]; [lia|].
+      pose proof (Hr' z (or_introl eq_refl)).
+      assert (0 <= zsum (map (var_len (h_dims h)) l)) by (apply IH; intros v Hv; apply Hr'; right; exact Hv).
+      lia. }
+    destruct (Z.eqb_spec (var_len (h_dims h) fr + (var_len (h_dims h) v2 + zsum (map (var_len (h_dims h)) rest)))
+                         (var_len (h_dims h) fr)); [lia|reflexivity].
+Qed.
+
+(** C03 "the library's own reports equal what is in the file", and the close/reopen step of a
+    redefinition history: the layout HeaderSpec.layout_of_hdr re-derives from a header whose
+    begins were assigned by enddef (at least one variable, no empty record variable) has the
+    same begin_var, recsize, begins - and begin_rec when there is a record variable, the end of
+    the fixed section otherwise - and again satisfies the invariant. *)
+Theorem layout_of_hdr_agrees : forall h lay, hdr_wf h ->
+  lay_inv (t3of h) lay -> map v_begin (h_vars h) = l_begins lay -> h_vars h <> [] ->
+  (forall v, In v (rec_vars h) -> 0 < var_len (h_dims h) v) ->
+  let br' := match rec_vars h with
+             | [] => last_end (l_begin_var lay) (fixed_pairs h)
+             | _ => l_begin_rec lay end in
+  layout_of_hdr h (l_xsz lay) =
+    mklayout (l_xsz lay) (l_begin_var lay) br' (l_recsize lay) (l_begins lay) /\
+  lay_inv (t3of h) (layout_of_hdr h (l_xsz lay)).
+Proof.
+  intros h lay Hwf Hinv Hbl Hne Hpos br'.
+  pose proof (wf_t3of h Hwf) as Hwf3. destruct (wf_t3_lens _ Hwf3) as [Hnn H4].
+  destruct Hinv as (Hlen & Hx & Hbi & Hbv & Hle & Hbr4 & Hc & Hrs).
+  rewrite <- vsof_t3of in *. rewrite <- Hbl in *.
+  rewrite <- fixed_pairs_sel, <- rec_pairs_sel in *.
+  assert (Erec : zsum (map (var_len (h_dims h)) (rec_vars h)) = rsum (vsof h))
+    by (symmetry; apply rsum_vsof).
+  assert (Elay : layout_of_hdr h (l_xsz lay) =
+                 mklayout (l_xsz lay) (l_begin_var lay) br' (l_recsize lay) (map v_begin (h_vars h))).
+  { unfold layout_of_hdr. fold (fixed_vars h). fold (rec_vars h).
+    rewrite (last_opt_last_end var v_begin (var_len (h_dims h)) (fixed_vars h) (l_xsz lay)).
+    fold (fixed_pairs h).
+    rewrite Hrs, (rs_rule_first h Hwf Hpos). unfold br'.
+    unfold rec_pairs in Hc. unfold fixed_pairs in Hbv |- *.
+    destruct (rec_vars h) as [|fr rrest] eqn:Er.
+    - (* no record variable: there is a fixed one *)
+      destruct (fixed_vars h) as [|fv frest] eqn:Efx.
+      + exfalso. apply Hne. clear -Er Efx. unfold rec_vars, fixed_vars in *.
+        destruct (h_vars h) as [|v vars]; [reflexivity|]. cbn [filter] in *.
+        destruct (is_recvar (h_dims h) v); cbn [negb] in *; discriminate.
+      + destruct (h_vars h); [contradiction|]. cbn [map] in Hbv |- *. cbn [last_end].
+        rewrite Hbv. reflexivity.
+    - cbn [map contig] in Hc. destruct Hc as [Hb0 _].
+      destruct (h_vars h) eqn:Ev; [contradiction|]. rewrite <- Ev.
+      destruct (fixed_vars h) as [|fv frest]; cbn [map] in Hbv |- *; rewrite Hb0, Hbv; reflexivity. }
+  split; [rewrite Elay, Hbl; reflexivity|].
+  rewrite Elay. unfold lay_inv. cbn [l_begins l_xsz l_begin_var l_begin_rec l_recsize].
+  rewrite <- vsof_t3of, <- fixed_pairs_sel, <- rec_pairs_sel.
+  split; [exact Hlen|]. split; [exact Hx|]. split; [exact Hbi|].
+  unfold br'. destruct (rec_vars h) as [|fr rrest] eqn:Er.
+  - assert (Hfne : fixed_pairs h <> []).
+    { unfold fixed_pairs. intros C. apply map_eq_nil in C. apply Hne. clear -Er C.
+      unfold rec_vars, fixed_vars in *.
+      destruct (h_vars h) as [|v vars]; [reflexivity|]. cbn [filter] in *.
+      destruct (is_recvar (h_dims h) v); cbn [negb] in *; discriminate. }
+    split. { destruct (fixed_pairs h) as [|[b l] r]; [contradiction|exact Hbv]. }
+    split; [lia|].
+    split. { apply last_end_mod4; [exact Hbi|exact Hfne|].
+             rewrite fixed_pairs_sel. apply (sel_lens_Forall (fun x => x mod 4 = 0)). exact H4. }
+    split; [|exact Hrs]. unfold rec_pairs. rewrite Er. exact I.
+  - unfold rec_pairs in Hc |- *. rewrite Er in Hc |- *.
+    split; [exact Hbv|]. split; [exact Hle|]. split; [exact Hbr4|]. split; [exact Hc|exact Hrs].
+Qed.
+
+Lemma map_v_begin_set_begins : forall h bl, length bl = length (h_vars h) ->
+  map v_begin (h_vars (set_begins h bl)) = bl.
+Proof.
+  intros h bl. unfold set_begins. cbn [h_vars]. rewrite map_map.
+  revert bl. induction (h_vars h) as [|v vars IH]; intros [|b bl] Hl;
+    cbn [length] in Hl; try discriminate Hl; [reflexivity|].
+  injection Hl as Hl. cbn [zip]. rewrite map_cons. f_equal. apply (IH bl Hl).
+Qed.
+
+Example ex_reopen0 :
+  layout_of_hdr (set_begins ex_h0 (l_begins ex_l0)) 224 = ex_l0.
+Proof. vm_compute. reflexivity. Qed.
+
+(* ---------- every redefinition history ---------- *)
+
+(* the header kept after enddef (begins and numrecs filled in) has the same variables *)
+Lemma t3of_set_begins : forall h bl, length bl = length (h_vars h) ->
+  t3of (set_begins h bl) = t3of h.
+Proof.
+  intros h bl. unfold t3of, set_begins. cbn [h_dims h_vars]. rewrite map_map.
+  revert bl. induction (h_vars h) as [|v vars IH]; intros [|b bl] Hl;
+    cbn [length] in Hl; try discriminate Hl; [reflexivity|].
+  injection Hl as Hl. cbn [zip map fst snd]. rewrite (IH bl Hl). reflexivity.
+Qed.
+
+Lemma t3of_set_numrecs : forall h n, t3of (set_numrecs h n) = t3of h.
+Proof. reflexivity. Qed.
+
+(** the layouts reachable by create; enddef; (redef; extend the header; enddef | close; open)*  with any
+    non-negative minfree and any alignments >= 4, multiples of 4 (resolve_align_ok), indexed by
+    the variable list (kind, len, unpadded size) of the header *)
+Inductive reachable : tlist -> layout -> Prop :=
+| reach_new : forall h hm vm ha ra lay,
+    hdr_wf h -> 0 <= hm -> 0 <= vm -> 4 <= ha -> ha mod 4 = 0 -> 4 <= ra -> ra mod 4 = 0 ->
+    begins h hm vm ha ra None 0 = Some lay -> reachable (t3of h) lay
+| reach_redef : forall oh ol h hm vm ha ra lay,
+    reachable (t3of oh) ol ->
+    hdr_wf h -> hdr_extends oh h ->
+    0 <= hm -> 0 <= vm -> 4 <= ha -> ha mod 4 = 0 -> 4 <= ra -> ra mod 4 = 0 ->
+    begins h hm vm ha ra (redef_old oh ol) (l_begin_rec ol) = Some lay -> reachable (t3of h) lay
+(* close and reopen: the layout is re-derived from the header in the file *)
+| reach_reopen : forall h lay,
+    reachable (t3of h) lay -> hdr_wf h -> map v_begin (h_vars h) = l_begins lay ->
+    h_vars h <> [] -> (forall v, In v (rec_vars h) -> 0 < var_len (h_dims h) v) ->
+    reachable (t3of h) (layout_of_hdr h (l_xsz lay)).
+
+Theorem reachable_lay_inv : forall t3 lay, reachable t3 lay -> lay_inv t3 lay.
+Proof.
+  intros t3 lay H. induction H as [h hm vm ha ra lay Hwf Hhm Hvm Hha Hha4 Hra Hra4 Hb
+                                  |oh ol h hm vm ha ra lay _ IH Hwf Hext Hhm Hvm Hha Hha4 Hra Hra4 Hb
+                                  |h lay _ IH Hwf Hbl Hne Hpos].
+  - exact (proj1 (begins_layout_ok h hm vm ha ra lay Hwf Hhm Hvm Hha Hha4 Hra Hra4 Hb)).
+  - exact (begins_lay_inv_redef oh h ol lay hm vm ha ra Hwf Hhm Hvm ltac:(lia) Hra Hra4 IH Hext Hb).
+  - exact (proj2 (layout_of_hdr_agrees h lay Hwf IH Hbl Hne Hpos)).
+Qed.
+
+Corollary reachable_layout_ok : forall h lay, hdr_wf h -> reachable (t3of h) lay ->
+  layout_ok (set_begins h (l_begins lay)) (l_xsz lay) = true.
+Proof.
+  intros h lay Hwf H. apply lay_inv_layout_ok; [apply wf_t3of; exact Hwf|].
+  apply reachable_lay_inv. exact H.
+Qed.
+
+Example ex_reachable1 : reachable (t3of ex_h1) ex_l1.
+Proof.
+  apply (reach_redef ex_oh ex_l0 ex_h1 0 0 512 64 ex_l1); try lia; try reflexivity.
+  - change (t3of ex_oh) with (t3of ex_h0).
+    apply (reach_new ex_h0 0 0 512 64 ex_l0); try lia; try reflexivity. exact ex_hdr_wf0.
+  - exact ex_hdr_wf1.
+  - exact ex_extends1.
+Qed.
+
+(* ---------- two requested statements that are FALSE of the model (and of the C code) ---------- *)
+
+(* 1. "l_begin_var >= hdr_len + h_minfree" fails when NO variable is defined: NC_begins then
+   ignores h_minfree and h_align ("no variable defined, ignore alignment and set header extent
+   to header size").  begins_layout_ok therefore states it under h_vars h <> []. *)
+Definition begin_var_minfree_full : Prop :=
+  forall h hm vm ha ra lay, hdr_wf h -> 0 <= hm -> 0 <= vm -> 4 <= ha -> ha mod 4 = 0 ->
+    4 <= ra -> ra mod 4 = 0 -> begins h hm vm ha ra None 0 = Some lay ->
+    hdr_len h + hm <= l_begin_var lay.
+
+Example begin_var_minfree_novars_cex :
+  let h := mkhdr 1 0 [] [] [] in
+  hdr_len h = 32 /\
+  begins h 100 0 512 4 None 0 = Some (mklayout 32 32 32 0 []).
+Proof. vm_compute. split; reflexivity. Qed.
+
+Theorem begin_var_minfree_refuted : ~ begin_var_minfree_full.
+Proof.
+  intros H.
+  specialize (H (mkhdr 1 0 [] [] []) 100 0 512 4 (mklayout 32 32 32 0 [])
+                (Forall_nil _) ltac:(lia) ltac:(lia) ltac:(lia) eq_refl ltac:(lia) eq_refl
+                (proj2 begin_var_minfree_novars_cex)).
+  vm_compute in H. apply H. reflexivity.
+Qed.
+
+(* 2. HeaderSpec.layout_ok of the OLD layout is not enough for a redefinition: layout_ok allows a
+   gap between two record variables (a file not written by this library), while NC_begins
+   advances its running offset by len, not to begin+len, in the record pass.  Old record
+   variables at 200 and 220 (8 bytes each), a third one added: it lands at 216 and overlaps
+   the second.  The invariant lay_inv (record variables contiguous), which every layout
+   computed by begins satisfies, is what begins_layout_ok_redef assumes. *)
+Definition ex_gap_dims : list dim := [mkdim [116] 0; mkdim [120] 2].
+Definition ex_gap_oh : hdr :=
+  mkhdr 1 0 ex_gap_dims [] [mkvar [97] [0; 1] [] 4 200 false; mkvar [98] [0; 1] [] 4 220 false].
+Definition ex_gap_h : hdr :=
+  mkhdr 1 0 ex_gap_dims [] (h_vars ex_gap_oh ++ [mkvar [99] [0; 1] [] 4 0 false]).
+
+Example redef_needs_contig_cex :
+  let ol := layout_of_hdr ex_gap_oh 136 in
+  hdr_len ex_gap_oh = 136 /\ layout_ok ex_gap_oh 136 = true /\
+  ol = mklayout 136 200 200 16 [200; 220] /\
+  begins ex_gap_h 0 0 4 4 (redef_old ex_gap_oh ol) (l_begin_rec ol)
+    = Some (mklayout 176 200 200 24 [200; 220; 216]) /\
+  layout_ok (set_begins ex_gap_h [200; 220; 216]) 176 = false.
+Proof. vm_compute. repeat split; reflexivity. Qed.
+
+Print Assumptions resolve_align_ok.
+Print Assumptions begin_var_minfree_refuted.
+Print Assumptions reachable_lay_inv.
+Print Assumptions layout_of_hdr_agrees.
+Print Assumptions reachable_layout_ok.
+Print Assumptions begins_eq.
+Print Assumptions begins_layout_ok.
+Print Assumptions begins_lay_inv_redef.
+Print Assumptions begins_layout_ok_redef.
+Print Assumptions begins_monotone.
+Print Assumptions begins_redef_facts.
+Print Assumptions begins_none_iff.
+Print Assumptions begins_none_iff_new.
+Print Assumptions enddef_size_verdict.
+Print Assumptions enddef_fails_iff.
+Print Assumptions vsize_saturation.
+Print Assumptions hdr_extends_append.
+Print Assumptions recsize_single.
+Print Assumptions recsize_multi.
